@@ -111,10 +111,10 @@ CLAIMED = {
         "minimal push of exactly the given bytes for data (int_emits_minimal, data_emits_minimal); the minimal push decodes to one instruction "
         "that places exactly those bytes and satisfies the minimal-push rule (minimal_push_decodes, any length < 2^32). Lexical layer (C07Lexer): "
         "the tokenizer of a bracket body yields the grammar's words (tokenize_eq_splitWords), word classification equals the grammar's token reader for "
-        "every word — canonical decimal integers in the int64 range, opcode names with/without OP_ and OP_xNN (getOpCode_eq_readOpcode for all byte strings), "
+        "every word — canonical decimal integers in the int64 range, opcode names with/without OP_ and OP_xNN for every byte NN (parseOpCode_eq_readOpcode: ParseOpCode = the grammar's name reader on all byte strings), "
         "hex literals (classify_eq_readTok) —, and for every program of the grammar at any nesting depth btcc assembles exactly compileToks of its tokens "
-        "(btcc_eq_compile), excluding the token OP_xff, whose mis-assembly is the known finding with a proved witness (btcc_opxff). Correspondence against the "
-        "independent grammar-based spec compiler: every opcode name, all OP_xNN, all 1-2 byte hex literals, integer boundaries, nesting to depth 8, through "
+        "(btcc_eq_compile, no token excepted; btcc_opx / btcc_opx_byte: OP_xNN and xNN assemble to the byte NN for all 256 bytes, ff included since /repo a4419d3). Correspondence against the "
+        "independent grammar-based spec compiler: every opcode name, all OP_xNN (also against an expectation written in the check, alone and inside brackets), all 1-2 byte hex literals, integer boundaries, nesting to depth 8, through "
         "Value::parse_args in-process and the btcc binary.",
         "DESIGN.md section 6 (C07)", "Lean 4 proof of the emission layer + grammar-directed differential correspondence for the lexer"),
     "C08": claim(
